@@ -4,7 +4,8 @@
    ring_theory / field_theory, so they cover the reals and the complex numbers. *)
 From Coq Require Import ZArith List Bool Lia Ring Field.
 From IBL.lib Require Import PyInt.
-From IBL.C18 Require Import Model Sums Proofs Conv.
+From Coq Require Import Reals.
+From IBL.C18 Require Import Model Sums Proofs Conv Half Filter ModelR ProofsR.
 Import ListNotations.
 Open Scope Z_scope.
 
@@ -123,6 +124,81 @@ Theorem C18_idft_dft :
 Proof. exact idft_dft. Qed.
 Print Assumptions C18_idft_dft.
 
+
+(* ---- fscale ------------------------------------------------------------ *)
+(* bin numbers (frequency = bin / ns / si): two-sided = 0..ns/2 then -(ceil(ns/2)-1)..-1,
+   i.e. the DFT bin frequencies with Nyquist counted positive; one-sided = 0..ns/2. *)
+Theorem C18_fscale_bins : forall ns, 1 <= ns ->
+  (length (fscale_bins ns false) = Z.to_nat ns /\
+   forall i, 0 <= i < ns ->
+     nth (Z.to_nat i) (fscale_bins ns false) 0 = if i <=? ns / 2 then i else i - ns) /\
+  (length (fscale_bins ns true) = Z.to_nat (ns / 2 + 1) /\
+   forall i, 0 <= i <= ns / 2 -> nth (Z.to_nat i) (fscale_bins ns true) 0 = i).
+Proof. intros ns H. split; [exact (fscale_two_sided ns H) | exact (fscale_one_sided ns H)]. Qed.
+Print Assumptions C18_fscale_bins.
+
+(* ---- freduce / fexpand ------------------------------------------------- *)
+(* Any carrier A with a conjugation.  (1) On a Hermitian spectrum of any length
+   n >= 1 (X[(n-k) mod n] = conj X[k]; both parities) expansion of the reduction
+   gives the spectrum back.  (2) For every ns >= 1 and every half spectrum of
+   ns div 2 + 1 entries, reduction of the expansion (which has ns entries) gives
+   it back. *)
+Theorem C18_freduce_fexpand_inverse :
+  forall (A : Type) (a0 : A) (conj : A -> A),
+  (forall X : list A, (1 <= length X)%nat ->
+     (forall k, (k < length X)%nat -> nth ((length X - k) mod length X) X a0 = conj (nth k X a0)) ->
+     exists H, freduce X = Some H /\ Z.of_nat (length H) = Z.of_nat (length X) / 2 + 1 /\
+               fexpand a0 conj H (Z.of_nat (length X)) = Some X) /\
+  (forall (H : list A) ns, 1 <= ns -> Z.of_nat (length H) = ns / 2 + 1 ->
+     exists E, fexpand a0 conj H ns = Some E /\ Z.of_nat (length E) = ns /\ freduce E = Some H).
+Proof.
+  intros A a0 conj. split; [exact (fexpand_freduce A a0 conj) | exact (freduce_fexpand A a0 conj)].
+Qed.
+Print Assumptions C18_freduce_fexpand_inverse.
+
+(* ---- lp / hp / bp ------------------------------------------------------ *)
+(* For every length N >= 1, every response vector c of N div 2 + 1 entries (the
+   taper values stay abstract), any conjugation commuting with v |-> 1 - v:
+   low-pass (response 1 - c) plus high-pass (response c) of ts is ts.  (Stated
+   before np.real, which is additive.) *)
+Theorem C18_lp_plus_hp_identity :
+  forall (R : Type) (rO rI : R) (radd rmul rsub : R -> R -> R) (ropp : R -> R)
+         (rdiv : R -> R -> R) (rinv : R -> R),
+  field_theory rO rI radd rmul rsub ropp rdiv rinv (@eq R) ->
+  forall (N : nat) (om omi invN : R),
+  (0 < N)%nat ->
+  rpow R rI rmul om N = rI ->
+  rmul om omi = rI ->
+  (forall d, (0 < d < N)%nat -> rpow R rI rmul om d <> rI) ->
+  rmul invN (rsum R rO radd N (fun _ => rI)) = rI ->
+  forall (conj : R -> R), (forall v, conj (rsub rI v) = rsub rI (conj v)) ->
+  forall (c ts a b : list R),
+  Z.of_nat (length c) = Z.of_nat N / 2 + 1 ->
+  freq_filter R rO rI radd rmul om omi invN conj N (resp_lp R rI rsub c) ts = Some a ->
+  freq_filter R rO rI radd rmul om omi invN conj N c ts = Some b ->
+  forall k, (k < N)%nat -> radd (nth k a rO) (nth k b rO) = getr R rO ts k.
+Proof. exact lp_plus_hp. Qed.
+Print Assumptions C18_lp_plus_hp_identity.
+
+(* full statement not proved: bp(ts, b) = lp(hp(ts, b[0:2]), b[2:4]) as operators.
+   The band-pass response is the product of the two responses by construction in
+   the source; the operator identity additionally needs dft(idft X) = X (the
+   orthogonality in the other index) — not proved here, measured by the harness. *)
+
+(* ---- fcn_cosine -------------------------------------------------------- *)
+(* Reals: for b0 < b1 the soft threshold is 0 up to b0, 1 from b1 on,
+   non-decreasing everywhere and within [0, 1]. *)
+Theorem C18_cosine_monotone : forall b0 b1 : R, (b0 < b1)%R ->
+  (forall x, (x <= b0)%R -> fcn_cosine b0 b1 x = 0%R) /\
+  (forall x, (b1 <= x)%R -> fcn_cosine b0 b1 x = 1%R) /\
+  (forall x y, (x <= y)%R -> (fcn_cosine b0 b1 x <= fcn_cosine b0 b1 y)%R) /\
+  (forall x, (0 <= fcn_cosine b0 b1 x <= 1)%R).
+Proof.
+  intros b0 b1 Hb. split; [exact (fc_low b0 b1 Hb)|]. split; [exact (fc_high b0 b1 Hb)|].
+  split; [exact (fc_mono b0 b1 Hb) | exact (fc_range b0 b1 Hb)].
+Qed.
+Print Assumptions C18_cosine_monotone.
+
 (* ---- non-vacuity ------------------------------------------------------- *)
 (* padded size a power of three (odd): 3 + 24 = 27 *)
 Example C18_example_ns_optim : ns_optim 27 = Some 27 /\ ns_optim 28 = Some 32 /\ ns_optim 65532 = Some 65536.
@@ -132,4 +208,16 @@ Example C18_example_convolve :
   convolve_full_with Z 0 (circ_conv Z 0 Z.add Z.mul) [1; 2] [1; 10; 100; 1000] = Some [1; 12; 120; 1200; 2000; 0] /\
   convolve_same_with Z 0 (circ_conv Z 0 Z.add Z.mul) [1; 2] [1; 10; 100; 1000] = Some [12; 120] /\
   convolve_same_with Z 0 (circ_conv Z 0 Z.add Z.mul) [1; 2; 3] [1; 10; 100] = Some [12; 123; 230].
+Proof. vm_compute. repeat split. Qed.
+
+Example C18_example_fscale : fscale_bins 7 false = [0; 1; 2; 3; -3; -2; -1] /\
+                             fscale_bins 8 false = [0; 1; 2; 3; 4; -3; -2; -1] /\ fscale_bins 1 false = [0].
+Proof. vm_compute. repeat split. Qed.
+
+(* a Hermitian Gaussian-integer spectrum of odd and of even length *)
+Example C18_example_half :
+  let cj := fun p : Z * Z => (fst p, - snd p) in
+  freduce [(6, 0); (1, 2); (3, -1); (3, 1); (1, -2)] = Some [(6, 0); (1, 2); (3, -1)] /\
+  fexpand (0, 0) cj [(6, 0); (1, 2); (3, -1)] 5 = Some [(6, 0); (1, 2); (3, -1); (3, 1); (1, -2)] /\
+  fexpand (0, 0) cj [(6, 0); (1, 2); (3, -1); (4, 0)] 6 = Some [(6, 0); (1, 2); (3, -1); (4, 0); (3, 1); (1, -2)].
 Proof. vm_compute. repeat split. Qed.
